@@ -38,6 +38,8 @@ void sim_unpoison(const void* p, size_t bytes);
 
 /** fill pattern used for blocks the library itself allocates (malloc family); calloc stays zero */
 void sim_set_lib_fill(int fill, uint64_t seed);
+/** LIFO reuse of released library blocks of equal size (ignored in the tsan flavour) */
+void sim_set_reuse(int on);
 /** library allocation accounting: ids are monotonically increasing per library allocation */
 uint64_t sim_lib_alloc_mark(void);                 // current allocation counter
 int sim_lib_live_since(uint64_t mark);             // number of library blocks allocated after mark and still live
